@@ -1,7 +1,254 @@
+/-
+  Driver.C16 — model driver for property C16 (log blooms, bloom-bits index, log queries). Core-only.
+  Reads the case lines of go/harness/cmd/c16 and answers with the output of Aqv.Model.LogFilter, every hash recomputed with
+  the Lean Keccak (`Aqv.Keccak.keccak256`, memoised per line for the items that occur in it — same function).
+  Stateful lines: `pool` (item pools), `mset` (raw blooms + index for `mq`), `chain` (chain + index for `q`).
+-/
 import Aqv.Base.Proto
-open Aqv Aqv.Proto
+import Aqv.Base.Keccak
+import Aqv.Model.LogFilter
+open Aqv Aqv.Proto Aqv.LogFilter
 
-/-- stub driver for C16 (answers every case line with "bad-op"); replaced when the property is built. -/
-def handle (l : String) : String := let _ := l; "bad-op\tagree"
+structure St where
+  poolA : Array Bytes := #[]
+  poolT : Array Bytes := #[]
+  poolH : List (Bytes × Bytes) := []          -- memo: item ↦ keccak256 item
+  msize : Nat := 0
+  mindex : List (List Bytes) := []
+  csize : Nat := 0
+  cindex : List (List Bytes) := []
+  chain : List Block := []
 
-def main : IO Unit := runLines handle
+/-- Keccak-256 with a memo table (extensionally `keccak256`). -/
+def mkH (tbl : List (Bytes × Bytes)) : HashFn := fun b =>
+  match tbl.lookup b with
+  | some h => h
+  | none => Keccak.keccak256 b
+
+def memo (tbl : List (Bytes × Bytes)) (items : List Bytes) : List (Bytes × Bytes) :=
+  items.foldl (fun t b => match t.lookup b with | some _ => t | none => (b, Keccak.keccak256 b) :: t) tbl
+
+def parseItem (st : St) (tok : String) : Option Bytes :=
+  match tok.toList with
+  | 'A' :: r => (String.ofList r).toNat?.bind (fun i => st.poolA[i]?)
+  | 'T' :: r => (String.ofList r).toNat?.bind (fun i => st.poolT[i]?)
+  | ['x'] => some []
+  | 'x' :: r => bytesOfHexAux r []
+  | _ => none
+
+def parseItems (st : St) (s : String) : Option (List Bytes) :=
+  (s.splitOn ",").mapM (parseItem st)
+
+/-- `<z|n><id>:<addr>:<topic>,<topic>…` -/
+def parseLog (st : St) (tok : String) : Option Log :=
+  match tok.splitOn ":" with
+  | [hd, a, ts] =>
+    match hd.toList with
+    | f :: idc =>
+      match (String.ofList idc).toNat?, parseItem st a, (if ts == "" then some [] else parseItems st ts) with
+      | some id, some addr, some topics => some ⟨addr, topics, f == 'z', id⟩
+      | _, _, _ => none
+    | [] => none
+  | _ => none
+
+def parseReceipts (st : St) (s : String) : Option (List (List Log)) :=
+  if s == "-" then some []
+  else (s.splitOn "|").mapM (fun r => if r == "_" then some [] else (r.splitOn ";").mapM (parseLog st))
+
+def parseCrit (st : St) (a t : String) : Option Criteria :=
+  let addrs := if a == "-" then some [] else parseItems st a
+  let topics := if t == "-" then some [] else (t.splitOn "/").mapM (fun p => if p == "*" then some [] else parseItems st p)
+  match addrs, topics with
+  | some x, some y => some ⟨x, y⟩
+  | _, _ => none
+
+def critItems (c : Criteria) : List Bytes := c.addresses ++ c.topics.flatten
+
+def idsTok (logs : List Log) : String :=
+  if logs.isEmpty then "-" else ",".intercalate (logs.map (fun l => toString l.id))
+
+def natsTok (ns : List Nat) : String :=
+  if ns.isEmpty then "-" else ",".intercalate (ns.map toString)
+
+def parseBits (s : String) : Option (List Nat) :=
+  if s == "" then some [] else (s.splitOn ".").mapM String.toNat?
+
+/-- a bloom given by its set bit indices: `BytesToBloom(n.Bytes())`. -/
+def bloomOfBits (bits : List Nat) : Bytes := bytesToBloom (beBytes (bits.foldl (fun n b => n ||| (1 <<< b)) 0))
+
+def genErrTok : GenErr → String
+  | .notMultipleOf8 => "err8"
+  | .sectionOutOfBounds => "oob"
+  | .unexpectedIndex => "idx"
+  | .notFull => "notfull"
+  | .indexPanic => "panic"
+
+/-- one generator session: ops `a<index>:<bits>` / `q<idx>`. -/
+def runGen (size : Nat) (ops : List String) : String :=
+  match newGenerator size with
+  | .error e => genErrTok e
+  | .ok g0 =>
+    let (_, outs) := ops.foldl (fun (acc : Generator × List String) op =>
+      let (g, outs) := acc
+      match op.toList with
+      | 'a' :: r =>
+        match (String.ofList r).splitOn ":" with
+        | [i, bits] =>
+          match i.toNat?, parseBits bits with
+          | some idx, some bs =>
+            match g.addBloom idx (bloomOfBits bs) with
+            | .ok g' => (g', "ok" :: outs)
+            | .error e => (g, genErrTok e :: outs)
+          | _, _ => (g, "bad-op" :: outs)
+        | _ => (g, "bad-op" :: outs)
+      | 'q' :: r =>
+        match (String.ofList r).toNat? with
+        | some idx =>
+          match g.bitset idx with
+          | .ok v => (g, ("ok:" ++ hexOrDash v) :: outs)
+          | .error e => (g, genErrTok e :: outs)
+        | none => (g, "bad-op" :: outs)
+      | _ => (g, "bad-op" :: outs)) (g0, [])
+    ";".intercalate outs.reverse
+
+/-- blooms `n:bits;n:bits…` placed into a list of `total` blooms (others empty). -/
+def placeBlooms (total : Nat) (s : String) : Option (List Bytes) :=
+  let empty := bloomOfBits []
+  let entries := if s == "-" || s == "" then some [] else (s.splitOn ";").mapM (fun e =>
+    match e.splitOn ":" with
+    | [n, bits] => match n.toNat?, parseBits bits with
+      | some n, some bs => some (n, bloomOfBits bs)
+      | _, _ => none
+    | _ => none)
+  match entries with
+  | none => none
+  | some es =>
+    let arr := es.foldl (fun (a : Array Bytes) (e : Nat × Bytes) => if e.1 < a.size then a.set! e.1 e.2 else a) (Array.replicate total empty)
+    some arr.toList
+
+def parseFilters (st : St) (s : String) : Option (List (List (Option Bytes))) :=
+  if s == "-" then some []
+  else (s.splitOn "/").mapM (fun g =>
+    if g == "*" then some []
+    else (g.splitOn ",").mapM (fun c => if c == "nil" then some none else (parseItem st c).map some))
+
+def parseInt (s : String) : Option Int :=
+  match s.toList with
+  | '-' :: r => (String.ofList r).toNat?.map (fun n => -(n : Int))
+  | _ => s.toNat?.map (fun n => (n : Int))
+
+def step (st : St) (l : String) : St × String :=
+  let (inp, go) := splitCase l
+  let bad := (st, "bad-op\tspec-reject:unparsed-case")
+  match fields inp with
+  | ["pool", a, t] =>
+    match (a.splitOn ",").mapM (fun h => bytesOfHexAux h.toList []), (t.splitOn ",").mapM (fun h => bytesOfHexAux h.toList []) with
+    | some as, some ts =>
+      ({ st with poolA := as.toArray, poolT := ts.toArray, poolH := memo [] (as ++ ts) }, verdict "ok" go false "pool")
+    | _, _ => bad
+  | ["b9", it] =>
+    match parseItem st it with
+    | some b => (st, verdict (hexOrDash (beBytes (bloom9 (mkH st.poolH) b))) go false "bloom9-differs")
+    | none => bad
+  | ["idx", it] =>
+    match parseItem st it with
+    | some b =>
+      let (x, y, z) := calcBloomIndexes (mkH st.poolH) b
+      -- Spec: the three positions bloom9 sets
+      let h := mkH st.poolH b
+      let spec := s!"{bloom9Idx h 0},{bloom9Idx h 2},{bloom9Idx h 4}"
+      (st, verdict s!"{x},{y},{z}" go (go == spec) "calcBloomIndexes-differs-from-bloom9")
+    | none => bad
+  | ["cb", rs] =>
+    match parseReceipts st rs with
+    | some receipts => (st, verdict (hexOfBytes (createBloom (mkH st.poolH) receipts)) go false "CreateBloom-differs")
+    | none => bad
+  | ["lk", bl, it] =>
+    match bytesOfHex bl, parseItem st it with
+    | some bloom, some b => (st, verdict (toString (bloomLookup (mkH st.poolH) bloom b)) go false "BloomLookup-differs")
+    | _, _ => bad
+  | ["bf", bl, a, t] =>
+    match bytesOfHex bl, parseCrit st a t with
+    | some bloom, some c =>
+      let H := mkH (memo st.poolH (critItems c))
+      (st, verdict (toString (bloomFilter H bloom c)) go false "bloomFilter-differs")
+    | _, _ => bad
+  | ["fl", r, a, t] =>
+    match parseReceipts st r, parseCrit st a t with
+    | some [logs], some c =>
+      let m := idsTok (filterLogs logs c)
+      let spec := idsTok (logs.filter (Spec.logMatches c))
+      (st, verdict m go (go == spec) "filterLogs-differs-from-spec")
+    | some [], some _ => (st, verdict "-" go false "filterLogs")
+    | _, _ => bad
+  | "gen" :: sz :: rest =>
+    match sz.toNat? with
+    | some size =>
+      let ops := match rest with
+        | [o] => if o == "-" then [] else o.splitOn ";"
+        | _ => []
+      (st, verdict (runGen size ops) go false "generator-differs")
+    | none => bad
+  | "mset" :: sz :: ns :: rest =>
+    match sz.toNat?, ns.toNat? with
+    | some size, some nsec =>
+      match placeBlooms (size * nsec) (match rest with | [b] => b | _ => "-") with
+      | some blooms =>
+        match buildIndex size blooms nsec with
+        | .ok idx => ({ st with msize := size, mindex := idx }, verdict "ok" go false "index")
+        | .error _ => ({ st with msize := size, mindex := [] }, verdict "generr" go false "index")
+      | none => bad
+    | _, _ => bad
+  | ["mq", f, b, e] =>
+    match parseFilters st f, b.toNat?, e.toNat? with
+    | some fs, some b, some e =>
+      let H := mkH (memo st.poolH (fs.flatten.filterMap id))
+      (st, verdict (natsTok (matcherRun st.mindex st.msize (newMatcherFilters H fs) b e)) go false "matcher-session-differs")
+    | _, _, _ => bad
+  | "chain" :: sz :: ns :: nb :: rest =>
+    match sz.toNat?, ns.toNat?, nb.toNat? with
+    | some size, some nsec, some nblocks =>
+      let H := mkH st.poolH
+      let bt := match rest with | [b] => b | _ => "-"
+      let entries : Option (List (Nat × List (List Log))) :=
+        if bt == "-" then some [] else (bt.splitOn "&").mapM (fun e =>
+          match e.splitOn "=" with
+          | [n, rs] => match n.toNat?, parseReceipts st rs with
+            | some n, some r => some (n, r)
+            | _, _ => none
+          | _ => none)
+      match entries with
+      | none => bad
+      | some es =>
+        let emptyBlk : Block := ⟨createBloom H [], []⟩
+        let arr := es.foldl (fun (a : Array Block) (e : Nat × List (List Log)) =>
+          if e.1 < a.size then a.set! e.1 ⟨createBloom H e.2, e.2⟩ else a) (Array.replicate nblocks emptyBlk)
+        let chain := arr.toList
+        match buildIndex size (chain.map (·.bloom)) nsec with
+        | .ok idx => ({ st with csize := size, cindex := idx, chain := chain }, verdict "ok" go false "index")
+        | .error _ => ({ st with csize := size, cindex := [], chain := chain }, verdict "generr" go false "index")
+    | _, _, _ => bad
+  | ["q", b, e, a, t] =>
+    match parseInt b, parseInt e, parseCrit st a t with
+    | some b, some e, some c =>
+      let H := mkH (memo st.poolH (critItems c))
+      let m := idsTok (filterLogsQuery H st.cindex st.chain st.csize c b e)
+      let spec := idsTok (Spec.bruteForce st.chain c b e)
+      (st, verdict m go (go == spec) "Filter.Logs-differs-from-bruteforce")
+    | _, _, _ => bad
+  | _ => bad
+
+partial def loopSt (h : IO.FS.Stream) (out : IO.FS.Stream) (st : St) : IO Unit := do
+  let line ← h.getLine
+  if line.isEmpty then
+    out.flush
+    return ()
+  let l := String.ofList (line.toList.filter (fun c => c != '\n' && c != '\r'))
+  let (st', o) := step st l
+  out.putStrLn o
+  loopSt h out st'
+
+def main : IO Unit := do
+  let i ← IO.getStdin
+  let o ← IO.getStdout
+  loopSt i o {}
